@@ -162,15 +162,22 @@ func c09GroupEval(f []string) (string, []string) {
 		re[k] = lines[i]
 		moved = moved || k != i
 	}
-	a, err := c09Groups(c09Render(lines))
-	if err != nil {
-		return "parse-error:" + err.Error(), nil
+	// a block that does not parse is an answer ("!parse-error" in place of its groups)
+	a, errA := c09Groups(c09Render(lines))
+	if errA != nil {
+		a = "!parse-error="
 	}
-	b, err := c09Groups(c09Render(re))
-	if err != nil {
-		return "parse-error:" + err.Error(), nil
+	b, errB := c09Groups(c09Render(re))
+	if errB != nil {
+		b = "!parse-error="
 	}
 	tags := []string{fmt.Sprintf("lines=%d", len(lines))}
+	if errA != nil || errB != nil {
+		tags = append(tags, "parse-error")
+	}
+	if strings.Contains(f[0], hx.HS("\n")) {
+		tags = append(tags, "multi-line-quoted-argument")
+	}
 	if !moved {
 		tags = append(tags, "trivial-identity")
 	} else {
@@ -284,11 +291,17 @@ func c09GroupLineField(ls []c09Line) string {
 
 func c09GroupGen(g *hx.Gen) {
 	valid := casket.ValidDirectives("http")
-	args := []string{"a", "/x", "b c", "", "#h", "v\"q", "/p/*", "0"}
+	// the last two: a quoted argument continued over a line break with a backslash, and a plain
+	// multi-line quoted argument (token line numbers are all that is left of file order)
+	args := []string{"a", "/x", "b c", "", "#h", "v\"q", "cont \\\nnext", "line1\nline2", "/p/*", "0"}
 	randLine := func(dir string) c09Line {
 		l := c09Line{dir: dir, toks: []string{dir}}
 		for i, n := 0, g.Rng.Intn(4); i < n; i++ {
-			l.toks = append(l.toks, hx.Pick(g.Rng, args[:6]))
+			l.toks = append(l.toks, hx.Pick(g.Rng, args[:8]))
+		}
+		if g.Rng.Chance(1, 4) {
+			// make the multi-line argument the LAST token of the line
+			l.toks = append(l.toks, hx.Pick(g.Rng, args[6:8]))
 		}
 		if g.Rng.Chance(1, 3) {
 			l.toks = append(l.toks, "{")
@@ -321,7 +334,9 @@ func c09GroupGen(g *hx.Gen) {
 				dirs[i] = names[c%len(names)]
 				c /= len(names)
 				ls[i] = c09Line{dir: dirs[i], toks: []string{dirs[i], fmt.Sprintf("arg%d", i)}}
-				if i%2 == 1 {
+				if (i+code)%3 == 2 {
+					ls[i].toks = append(ls[i].toks, []string{"q \\\nr", "m1\nm2"}[(i+code)%2])
+				} else if i%2 == 1 {
 					ls[i].toks = append(ls[i].toks, "{", fmt.Sprintf("sub%d", i), "x", "}")
 				}
 			}
@@ -468,6 +483,12 @@ var c09Pool = []c09Line{
 	{"markdown", []string{"markdown /md"}},
 	{"browse", []string{"browse /dir"}},
 	{"tryfiles", []string{"tryfiles /try {path} /try/real.txt"}},
+	// lines whose last token is a quoted argument running over a line break: continued with a
+	// backslash, and a plain multi-line string
+	{"log", []string{"log /ml @LOG@.ml \"{method} \\\n{uri} {status}\""}},
+	{"log", []string{"log /ml2 @LOG@.ml2 \"{method}\n{status}\""}},
+	{"status", []string{"status 418 \"/tea\\\npot\""}},
+	{"basicauth", []string{"basicauth /dir bob \"pw\\\nx\""}},
 }
 
 type c09Req struct {
@@ -663,7 +684,17 @@ func c09PermEval(f []string) (string, []string) {
 	chainA, ansA, codes, errA := c09StartCodes(lines, "access-a.log")
 	chainB, ansB, errB := c09Start(re, "access-b.log")
 	if errA != nil || errB != nil {
-		return fmt.Sprintf("start-error:%v / %v", errA, errB), nil
+		// a block that no longer loads is an answer, not a harness failure
+		if errA != nil {
+			chainA = "!start-error"
+		}
+		if errB != nil {
+			chainB = "!start-error"
+		}
+		if os.Getenv("VERIF_C09_DUMP") != "" {
+			fmt.Fprintf(os.Stderr, "start errors: %v / %v\n", errA, errB)
+		}
+		return chainA + "#" + chainB + "#differ:start", []string{"start-error"}
 	}
 	res := "equal"
 	for i := range ansA {
@@ -761,15 +792,20 @@ func c09PermGen(g *hx.Gen) {
 		g.Case(c09PermLineField(ls), c09PermField(c09StablePerms(dirs, 1)[0]))
 		// directives in reverse list order, lines of one directive kept in order
 		var rev []int
-		for i := len(ls) - 1; i >= 0; {
-			j := i
-			for j > 0 && dirs[j-1] == dirs[i] {
-				j--
+		var order []string
+		seenDir := map[string]bool{}
+		for _, d := range dirs {
+			if !seenDir[d] {
+				seenDir[d] = true
+				order = append(order, d)
 			}
-			for k := j; k <= i; k++ {
-				rev = append(rev, k)
+		}
+		for k := len(order) - 1; k >= 0; k-- {
+			for i, d := range dirs {
+				if d == order[k] {
+					rev = append(rev, i)
+				}
 			}
-			i = j - 1
 		}
 		g.Case(c09PermLineField(ls), c09PermField(rev))
 		for i := 0; i < 3; i++ {
